@@ -44,11 +44,15 @@ type MetaInfo struct {
 
 // DBucket is the decoded logical content of a bucket (raw bytes).
 type DBucket struct {
-	Seq    uint64
-	Inline bool
-	Keys   [][]byte
-	Vals   [][]byte   // nil for nested buckets
-	Subs   []*DBucket // non-nil for nested buckets
+	Idx      int  // index among the buckets of the file (0 = the root bucket)
+	ElemSize int  // sum over its leaf elements of (element header + key + value)
+	Nested   bool // holds at least one nested bucket
+	RootLeaf bool // its root page is a leaf (or it is inline)
+	Seq      uint64
+	Inline   bool
+	Keys     [][]byte
+	Vals     [][]byte   // nil for nested buckets
+	Subs     []*DBucket // non-nil for nested buckets
 }
 
 type Decoded struct {
@@ -67,6 +71,30 @@ type Decoded struct {
 	Root     *DBucket          `json:"-"`
 
 	NBranch, NLeaf, NOverflow, NInline, MaxDepth int
+
+	Pages   []PageShape   `json:"-"` // one record per reachable tree page (first reference)
+	Buckets []BucketShape `json:"-"`
+}
+
+// PageShape / BucketShape are the structural facts BTree.tla's ShapeOK is evaluated on.
+type PageShape struct {
+	ID     uint64 `json:"id"`
+	Kind   string `json:"kind"` // leaf | branch
+	Count  int    `json:"count"`
+	Used   int    `json:"used"` // header + element headers + keys + values
+	Cap    int    `json:"cap"`  // (overflow + 1) * pageSize
+	Depth  int    `json:"depth"`
+	Bucket int    `json:"bucket"`
+	Root   bool   `json:"root"`
+}
+type BucketShape struct {
+	ID       int  `json:"id"`
+	Inline   bool `json:"inline"`
+	Size     int  `json:"size"`   // inline page size the bucket has / would have (header + elements + keys + values)
+	Nested   bool `json:"nested"` // holds at least one nested bucket
+	RootLeaf bool `json:"rootLeaf"`
+	Keys     int  `json:"keys"`
+	TopLevel bool `json:"topLevel"`
 }
 
 func fnv64a(b []byte) uint64 {
@@ -136,9 +164,10 @@ func DetectPageSize(data []byte) (int, bool) {
 }
 
 type decoder struct {
-	d    *Decoded
-	data []byte
-	ps   int
+	d        *Decoded
+	data     []byte
+	ps       int
+	nbuckets int
 }
 
 func (dc *decoder) problem(f string, a ...any) {
@@ -223,10 +252,24 @@ func DecodeBytes(data []byte) *Decoded {
 	if m.Root < 2 || m.Root >= d.Hwm {
 		dc.problem("root bucket page %d out of range", m.Root)
 	} else {
-		dc.walkTree(m.Root, d.Root, nil, nil, 1)
+		dc.walkTree(m.Root, d.Root, nil, nil, 1, 1)
 		dc.checkOrder(d.Root, "root")
 	}
 	dc.account()
+	var collect func(b *DBucket, top bool)
+	collect = func(b *DBucket, top bool) {
+		if b.Idx != 0 {
+			d.Buckets = append(d.Buckets, BucketShape{ID: b.Idx, Inline: b.Inline, Size: pageHeaderSize + b.ElemSize, Nested: b.Nested, RootLeaf: b.RootLeaf, Keys: len(b.Keys), TopLevel: top})
+		}
+		for _, s := range b.Subs {
+			if s != nil {
+				collect(s, b.Idx == 0)
+			}
+		}
+	}
+	if d.Root != nil {
+		collect(d.Root, false)
+	}
 	return d
 }
 
@@ -287,7 +330,7 @@ func (dc *decoder) readFreelist(id uint64) {
 
 // walkTree decodes the page id (branch or leaf) into bucket b. lo is the separator key the
 // parent branch holds for this page; hi the next separator (nil = unbounded).
-func (dc *decoder) walkTree(id uint64, b *DBucket, lo, hi []byte, depth int) {
+func (dc *decoder) walkTree(id uint64, b *DBucket, lo, hi []byte, depth int, bdepth int) {
 	if depth > dc.d.MaxDepth {
 		dc.d.MaxDepth = depth
 	}
@@ -337,6 +380,11 @@ func (dc *decoder) walkTree(id uint64, b *DBucket, lo, hi []byte, depth int) {
 			}
 			elems = append(elems, be{pb[e+pos : e+pos+ks], pg})
 		}
+		used := pageHeaderSize + len(elems)*elemSize
+		for _, e := range elems {
+			used += len(e.key)
+		}
+		dc.d.Pages = append(dc.d.Pages, PageShape{ID: id, Kind: "branch", Count: h.count, Used: used, Cap: (int(h.overflow) + 1) * dc.ps, Depth: bdepth, Bucket: b.Idx, Root: bdepth == 1})
 		for i, e := range elems {
 			if i > 0 && bytes.Compare(elems[i-1].key, e.key) >= 0 {
 				dc.problem("branch page %d: keys out of order at element %d", id, i)
@@ -352,12 +400,17 @@ func (dc *decoder) walkTree(id uint64, b *DBucket, lo, hi []byte, depth int) {
 				dc.problem("branch page %d: element %d points to page %d", id, i, e.pgid)
 				continue
 			}
-			dc.walkTree(e.pgid, b, e.key, nhi, depth+1)
+			dc.walkTree(e.pgid, b, e.key, nhi, depth+1, bdepth+1)
 		}
 	case flagLeaf:
 		dc.d.Types[id] = "leaf"
 		dc.d.NLeaf++
+		before := b.ElemSize
+		if bdepth == 1 {
+			b.RootLeaf = true
+		}
 		dc.leafElems(pb[:], h.count, b, lo, hi, fmt.Sprintf("leaf page %d", id), depth)
+		dc.d.Pages = append(dc.d.Pages, PageShape{ID: id, Kind: "leaf", Count: h.count, Used: pageHeaderSize + (b.ElemSize - before), Cap: (int(h.overflow) + 1) * dc.ps, Depth: bdepth, Bucket: b.Idx, Root: bdepth == 1})
 	default:
 		dc.d.Types[id] = fmt.Sprintf("unknown<%02x>", h.flags)
 		dc.problem("page %d reachable from the tree has flags %#x", id, h.flags)
@@ -389,8 +442,11 @@ func (dc *decoder) leafElems(pb []byte, count int, b *DBucket, lo, hi []byte, wh
 			dc.problem("%s: key %d not below the next separator", what, i)
 		}
 		b.Keys = append(b.Keys, k)
+		b.ElemSize += elemSize + ks + vs
 		if fl&bucketLeafFlag != 0 {
-			sub := &DBucket{}
+			b.Nested = true
+			dc.nbuckets++
+			sub := &DBucket{Idx: dc.nbuckets}
 			b.Vals = append(b.Vals, nil)
 			b.Subs = append(b.Subs, sub)
 			if len(v) < 16 {
@@ -401,6 +457,7 @@ func (dc *decoder) leafElems(pb []byte, count int, b *DBucket, lo, hi []byte, wh
 			sub.Seq = binary.LittleEndian.Uint64(v[8:])
 			if root == 0 {
 				sub.Inline = true
+				sub.RootLeaf = true
 				dc.d.NInline++
 				ip := v[16:]
 				if len(ip) < pageHeaderSize {
@@ -418,7 +475,7 @@ func (dc *decoder) leafElems(pb []byte, count int, b *DBucket, lo, hi []byte, wh
 					dc.problem("%s: bucket element %d root page %d out of range", what, i, root)
 					continue
 				}
-				dc.walkTree(root, sub, nil, nil, depth+1)
+				dc.walkTree(root, sub, nil, nil, depth+1, 1)
 			}
 		} else {
 			b.Vals = append(b.Vals, v)
